@@ -5,8 +5,6 @@ package main
 import (
 	"fmt"
 	"math/rand"
-	"os"
-	"strconv"
 	"time"
 
 	"mangosverif/coqgen"
@@ -59,22 +57,13 @@ type psGen struct {
 	recvCtx    map[int]int // Recv call -> context
 	qlen       map[int]int // context -> READQ-LEN as set through the harness (0 = never set)
 	passes     int
-	wedged     bool
 }
 
-var produced int
 var scriptIdx = map[bool]int{}
 
-// the probe that wedges the socket poisons quiescence detection for the rest of the process, so it is run as
-// the very last history of worker 0
-func lastOfWorker0() bool {
-	if len(os.Args) < 5 || os.Args[1] != "-worker" {
-		return false
-	}
-	idx, _ := strconv.Atoi(os.Args[2])
-	n, _ := strconv.Atoi(os.Args[3])
-	return idx == 0 && os.Args[4] == "0" && produced == n-1 && os.Getenv("L1PUBSUB_NOPROBE") == ""
-}
+// poisoned: a history of this process ended with goroutines parked on a mutex (reported as STUCK). They stay
+// parked, so quiescence detection can no longer tell later histories apart: the worker produces nothing more.
+var poisoned bool
 
 func newProto(kind int) mangos.ProtocolBase {
 	switch kind {
@@ -89,6 +78,9 @@ func newProto(kind int) mangos.ProtocolBase {
 }
 
 func genPS(r *rand.Rand, timed bool) (string, string, string) {
+	if poisoned {
+		return "", "process poisoned by an earlier deadlock", ""
+	}
 	var script *scriptT
 	scripts := psScripts
 	if timed {
@@ -98,13 +90,10 @@ func genPS(r *rand.Rand, timed bool) (string, string, string) {
 		script = &scripts[i]
 		scriptIdx[timed] = i + 1
 	}
-	probe := script == nil && lastOfWorker0()
 	kind := 0
 	switch {
 	case script != nil:
 		kind = script.kind
-	case probe:
-		kind = kSub
 	case timed:
 		kind = []int{kSub, kSub, kSub, kXSub}[r.Intn(4)]
 	default:
@@ -122,14 +111,6 @@ func genPS(r *rand.Rand, timed bool) (string, string, string) {
 				g.apply(o)
 			}
 		}
-	case probe:
-		// READQ-LEN 0 and a matching message with no Recv parked: the receiver goroutine blocks in `c.recvQ <- m`
-		// holding the socket lock; every later call parks on the mutex
-		for _, o := range []op{{k: "addpipe"}, {k: "sub", a: 0, s: []byte{}}, {k: "qlen", a: 0, c: 0}, {k: "deliver", a: 1, s: []byte("a\x81\x01")}} {
-			g.apply(o)
-		}
-		g.wedged = true
-		g.apply(op{k: "recv", a: 0})
 	default:
 		g.prologue()
 		nsteps := 14 + r.Intn(28)
@@ -137,8 +118,9 @@ func genPS(r *rand.Rand, timed bool) (string, string, string) {
 			g.stepOnce()
 		}
 	}
-	// release everything
-	if g.wedged {
+	// release everything (a deadlocked socket would also block Close)
+	if d.Stuck {
+		poisoned = true
 		go func() { _ = p.Close() }()
 	} else {
 		_ = p.Close()
@@ -148,7 +130,6 @@ func genPS(r *rand.Rand, timed bool) (string, string, string) {
 	}
 	seq.Quiesce(500 * time.Millisecond)
 	if d.Stuck {
-		produced++
 		return d.Coq(), "", "STUCK: " + d.Bad
 	}
 	if d.Bad != "" {
@@ -157,7 +138,6 @@ func genPS(r *rand.Rand, timed bool) (string, string, string) {
 	if timed && d.MaxGap > maxGapMs*time.Millisecond {
 		return "", "slow step", ""
 	}
-	produced++
 	return d.Coq(), "", ""
 }
 
@@ -305,9 +285,9 @@ func (g *psGen) chooseSub() (op, bool) {
 	case w < 83:
 		return op{k: "openctx"}, g.nextCtx < 2
 	case w < 88:
-		// never 0 here: a zero-length queue wedges the socket (see the probe)
-		v := 1 + r.Intn(4)
-		if r.Intn(150) == 0 {
+		// 0: rendezvous only (what no parked Recv takes is dropped); < 0: ErrBadValue
+		v := []int{0, 1, 1, 2, 2, 3, 4}[r.Intn(7)]
+		if r.Intn(12) == 0 {
 			v = -1 - r.Intn(3)
 		}
 		return op{k: "qlen", a: g.pickCtx(), c: v}, true
@@ -524,10 +504,16 @@ func (g *psGen) apply(o op) {
 		n := g.nextPipe
 		pp := mp.NewPipe(uint32(1000+n), n, d.Proto, d.Rec)
 		d.Pipes[n] = pp
-		if err := pp.Attach(); err == nil {
-			g.alive[n] = true
-		}
+		// AddPipe takes the socket lock: run it aside so that a deadlocked socket cannot hang the driver
+		done := make(chan error, 1)
+		go func() { done <- pp.Attach() }()
 		d.Finish(fmt.Sprintf("SAddPipe %d", n), nil, false, t0)
+		select {
+		case err := <-done:
+			g.alive[n] = err == nil
+		default:
+			d.Stuck, d.Bad = true, "AddPipe did not return"
+		}
 	case "drop":
 		n := o.a
 		g.alive[n] = false
@@ -631,13 +617,25 @@ func (g *psGen) apply(o op) {
 		c := g.nextCtx + 1
 		g.nextCall++
 		t := g.nextCall
-		ctx, err := d.Proto.OpenContext()
-		if err == nil {
-			g.nextCtx = c
-			d.Ctxs[c] = ctx
+		type res struct {
+			ctx mangos.ProtocolContext
+			err error
 		}
-		d.Call(t, func() (*seq.Msg, error) { return nil, err })
+		done := make(chan res, 1)
+		d.Call(t, func() (*seq.Msg, error) {
+			ctx, err := d.Proto.OpenContext()
+			done <- res{ctx, err}
+			return nil, err
+		})
 		d.Finish(fmt.Sprintf("SCall %d (COpenCtx %d)", t, c), nil, false, t0)
+		select {
+		case x := <-done:
+			if x.err == nil {
+				g.nextCtx = c
+				d.Ctxs[c] = x.ctx
+			}
+		default: // parked: Finish has recorded it as blocked / stuck
+		}
 	case "closectx":
 		g.nextCall++
 		t := g.nextCall
@@ -705,6 +703,11 @@ var psScripts = []scriptT{
 	// READQ-LEN 0 with a Recv already parked is a rendezvous; READQ-LEN < 0 panics in make(chan)
 	{kSub, []op{{k: "addpipe"}, {k: "sub", a: 0, s: b("a")}, {k: "qlen", a: 0, c: 0}, {k: "recv", a: 0}, {k: "deliver", a: 1, s: b("b1")}, {k: "deliver", a: 1, s: b("a2")},
 		{k: "qlen", a: 0, c: 2}, {k: "qlen", a: 0, c: -1}, {k: "deliver", a: 1, s: b("a3")}, {k: "recv", a: 0}}},
+	// READQ-LEN 0 with nobody parked: the message is dropped, the socket keeps working (this history used to wedge it)
+	{kSub, []op{{k: "addpipe"}, {k: "sub", a: 0, s: b("")}, {k: "qlen", a: 0, c: 0}, {k: "deliver", a: 1, s: b("a\x81\x01")}, {k: "recv", a: 0},
+		{k: "openctx"}, {k: "addpipe"}, {k: "deliver", a: 2, s: b("a\x82\x01")}, {k: "deliver", a: 1, s: b("a\x81\x02")}, {k: "sub", a: 1, s: b("a")},
+		{k: "deliver", a: 1, s: b("a\x81\x03")}, {k: "qlen", a: 1, c: 0}, {k: "deliver", a: 1, s: b("a\x81\x04")}, {k: "recv", a: 1}, {k: "recv", a: 0},
+		{k: "deliver", a: 2, s: b("a\x82\x02")}, {k: "closesock"}}},
 	// changing READQ-LEN abandons the queued messages; closing; options of other protocols
 	{kSub, []op{{k: "addpipe"}, {k: "sub", a: 0, s: b("")}, {k: "deliver", a: 1, s: b("x1")}, {k: "qlen", a: 0, c: 2}, {k: "deliver", a: 1, s: b("x2")}, {k: "recv", a: 0},
 		{k: "recv", a: 0}, {k: "openctx"}, {k: "sub", a: 1, s: b("x")}, {k: "recv", a: 1}, {k: "badopt", a: 0, b: 0}, {k: "send", s: b("s")}, {k: "closesock"}, {k: "closesock"},
